@@ -1,6 +1,7 @@
 package core
 
 import (
+	"context"
 	"fmt"
 
 	"github.com/blang/semver"
@@ -67,7 +68,21 @@ func RepoSquash(stores context2.Stores, repoName string, opts ...Option) error {
 		})
 	*/
 
-	for _, bundle := range bundles[:len(bundles)-settings.retainNLatest] {
+	// The keys-only listing also reports the leftovers of interrupted uploads (file lists without a bundle descriptor):
+	// these must not count among the N latest bundles to retain, or the most recent committed bundles get removed.
+	cut := len(bundles)
+	for retained := 0; cut > 0 && retained < settings.retainNLatest; {
+		cut--
+		committed, erh := getMetaStore(stores).Has(context.Background(), model.GetArchivePathToBundle(repoName, bundles[cut].ID))
+		if erh != nil {
+			return erh
+		}
+		if committed {
+			retained++
+		}
+	}
+
+	for _, bundle := range bundles[:cut] {
 		if settings.retainTags || settings.retainSemverTags {
 			if _, retain := labelsIndex[bundle.ID]; retain {
 				continue
